@@ -358,7 +358,7 @@ def Pool.demoteUnexecutables (gapFix : Bool) (s : Pool) : Pool :=
 /-- Discard: the victims proposed by the oracle, restricted to what the Go code can drop (non-local members of `all`,
     at most `count` of them). -/
 def Pool.sanitizeVictims (s : Pool) (count : Nat) (vs : List Tx) : List Tx :=
-  ((vs.filter (fun t => decide (t ∈ s.all) && !s.isLocal t.sender)).eraseDups).take count
+  (vs.filter (fun t => decide (t ∈ s.all) && !s.isLocal t.sender)).take count
 
 def minPrice : List Tx → Option Nat
   | [] => none
@@ -372,6 +372,24 @@ def Pool.underpriced (s : Pool) (t : Tx) : Bool :=
   else match minPrice s.all with
     | none => false
     | some m => decide (t.price ≤ m)
+
+/-- what `add` does after validation and after making room -/
+def Pool.addCore (s : Pool) (t : Tx) (loc : Bool) : Err × Bool × Pool :=
+  if (s.pending t.sender).overlaps t then
+    let r := (s.pending t.sender).add t s.cfg.priceBump
+    if !r.1 then (.replace, false, s)
+    else
+      let all := match r.2.1 with
+        | some o => delAll o s.all
+        | none => s.all
+      (.ok, r.2.1.isSome, { s with pending := upd s.pending t.sender r.2.2, all := insertAll t all })
+  else
+    let q := s.enqueueTx t
+    if !q.2.1 then (.replace, false, s)
+    else
+      let s := q.2.2
+      let s := if loc && !s.isLocal t.sender then { s with locals := t.sender :: s.locals } else s
+      (.ok, q.1, s)
 
 /-- add: (error, replaced?, pool). A malformed transaction has another hash than the well-formed one with the same five
     fields, so only well-formed ones can be "known". -/
@@ -430,6 +448,12 @@ def Pool.setGasPrice (s : Pool) (p : Nat) : Pool :=
   let drop := s.all.filter (fun t => decide (t.price < p) && !s.isLocal t.sender)
   drop.foldl (fun s t => s.removeTx t) s
 
+/-- SetGasPrice with the list of transactions popped by `priced.Cap` as an argument (restricted to what Cap can return:
+    pooled, cheaper than the new floor, not local); `setGasPrice` is the instance with every such transaction. -/
+def Pool.setGasPriceO (s : Pool) (p : Nat) (drops : List Tx) : Pool :=
+  let s := { s with gasPrice := p }
+  (drops.filter (fun t => decide (t ∈ s.all) && decide (t.price < p) && !s.isLocal t.sender)).foldl (fun s t => s.removeTx t) s
+
 /-- types.TxDifference -/
 def txDifference (a b : List Tx) : List Tx := a.filter (fun t => !decide (t ∈ b))
 
@@ -470,6 +494,7 @@ inductive Op
   | add (t : Tx) (loc : Bool) (sh : Shape) (victims : List Tx) (slots qorder : List Addr)
   | adds (ts : List Tx) (loc : Bool) (victims : List (List Tx)) (slots qorder : List Addr)
   | setGasPrice (p : Nat)
+  | setGasPriceO (p : Nat) (drops : List Tx)
   | reset (v : View) (oldNum newNum : Nat) (reorg : Bool) (disc inc : List Tx) (o : ResetOracle)
   | evictIdle (a : Addr)
 
@@ -479,6 +504,7 @@ def Pool.step (gapFix : Bool) (s : Pool) : Op → Pool
   | .add t loc sh vs sl qo => (s.addTx t loc sh vs sl qo).2
   | .adds ts loc vs sl qo => (s.addTxs ts (loc && !s.cfg.noLocals) vs sl qo).2
   | .setGasPrice p => s.setGasPrice p
+  | .setGasPriceO p drops => s.setGasPriceO p drops
   | .reset v o n r d i orc => s.reset gapFix v o n r d i orc
   | .evictIdle a => s.evictIdle a
 
